@@ -85,6 +85,12 @@ func getFromCache[T any](cfg *Config, key string) (T, error) {
 		return r, gerror.ExtMsgf(err, "key="+key)
 	}
 
+	if v == nil {
+		// a null value read as an interface type (e.g. Get[any]) is the nil interface,
+		// which cannot be asserted to T; it is T's zero value.
+		return r, nil
+	}
+
 	return v.(T), nil
 }
 
